@@ -32,6 +32,9 @@ PROPS = {
     "C14": dict(harness="bt", trusted=BT_TRUST, assumptions=["server clock and sample coins are inputs"]),
     "C16": dict(harness="bt", trusted=BT_TRUST, assumptions=["server clock and sample coins are inputs"]),
     "C17": dict(harness="bt", trusted=BT_TRUST, assumptions=["server clock and sample coins are inputs"]),
+    "C08": dict(harness="bt", trusted=BT_TRUST + ["goleveldb's journal/recovery; rename is atomic; a point-in-time copy of the directory through the OS is what a killed process leaves (no power loss)"],
+                assumptions=["crash = process kill: data handed to the OS survives"],
+                oracle_codes={1: "a server started on the image taken after an acknowledged request does not serve the acknowledged state", 2: "a server started on the image taken at a crash point inside a request serves neither the state before nor the state after it"}),
     "C18": dict(harness="bt", trusted=BT_TRUST + ["goleveldb's iterator snapshot guarantee; sync.RWMutex and the Go scheduler (preemption exhibited only at the instrumented hand-over point)"],
                 assumptions=["blocking is observed through the runtime's goroutine wait state"]),
     "C19": dict(harness="lock", trusted=["Go channel and sync.Mutex semantics are the model's rules by construction (a blocked sender is woken when the slot frees; select picks any ready case)"],
@@ -40,7 +43,7 @@ PROPS = {
 }
 
 
-def _has_zero_cond(case, step):
+def _has_zero_cond(case, step, code=None):
     """GCS-7: a literal 0 for a parameter other than ifGenerationMatch is treated as absent."""
     for r in case["prog"]:
         cp = r.get("cp") or []
@@ -55,13 +58,13 @@ def _segs_order_differs(names):
     return sorted(ns, key=lambda n: [x.encode("utf-8") for x in n.split("/")]) != ns
 
 
-def _delim_listing(case, step):
+def _delim_listing(case, step, code=None):
     """GCS-1: listing with a delimiter; the token comes from the last item."""
     r = case["prog"][step]
     return r.get("kind") == "list" and r.get("delim", "") != ""
 
 
-def _file_order(case, step):
+def _file_order(case, step, code=None):
     """GCS-2: file store, names whose per-directory walk order differs from bytewise order."""
     if case.get("store") != "file":
         return False
@@ -71,12 +74,37 @@ def _file_order(case, step):
     return _segs_order_differs([n for n in names if n])
 
 
-def _file_add_mixture(case, step):
+def _file_add_mixture(case, step, code=None):
     """GCS-10: the file store's Add is three file operations; a lock-free reader in between."""
     return case.get("tag") == "file-add-mixture" and case.get("store") == "file"
 
 
+def _disk_flat(case):
+    out = []
+    for seg in case.get("segs", []):
+        for c, o in zip(seg["prog"], seg["obs"]):
+            out.append((c["req"], o))
+    return out
+
+
+def _deleted_table_before(case, step, code=None):
+    """BT-12: a successful DeleteTable at or before the failing step (its files stay on disk)."""
+    flat = _disk_flat(case)
+    return any(r.get("kind") == "delete" and o["resp"].get("code", 0) == 0 for r, o in flat[:step + 1])
+
+
+def _drop_family_crash(case, step, code=None):
+    """BT-18: crash point inside a ModifyColumnFamilies that drops a family."""
+    flat = _disk_flat(case)
+    if step >= len(flat) or code != 2:
+        return False
+    r = flat[step][0]
+    return r.get("kind") == "modify" and any(m.get("kind") == "drop" for m in r.get("mods", []))
+
+
 KNOWN_MATCHERS = {
+    "BT-12": _deleted_table_before,
+    "BT-18": _drop_family_crash,
     "GCS-10": _file_add_mixture,
     "GCS-1": _delim_listing,
     "GCS-2": _file_order,
@@ -102,6 +130,8 @@ TEXT = {
              level="Theorems about the interleaving model of the table lock (any number of threads, any schedule): the lock invariant, equality of every scheduled run with the serial run in acquisition order (responses included), real-time order, and failure atomicity of MutateRow / MutateRows entries / CheckAndMutateRow / ReadModifyWriteRow for every position of an invalid mutation. Correspondence: all interleavings of two requests at the instrumented yield points are executed on real goroutines and compared step by step (parked / blocked / returned + response), then a full read." + _CORR, note=_NOTE + " The Go scheduler, sync.RWMutex and the memory model are assumptions; preemption is exhibited only at hook points."),
  "C07": dict(technique="Coq proof over the interleaving model (per-object lock; every schedule equals a serial execution per object) + exhaustive two-request interleavings driven through yield hooks on the real handlers, both stores",
              level="Theorems about the interleaving model of the handlers (any number of threads, any schedule): the lock invariant, store effects on one object equal a serial order consistent with real time, of N writers conditioned on one generation or on non-existence exactly one succeeds, a metageneration-conditioned patch applies only to a matching state, no update is lost; memory-store reads return one committed version. The file store's three-step Add seen by a lock-free reader is refuted by a schedule (finding GCS-10). Correspondence: all interleavings of two requests at the yield point between precondition check and store mutation are executed on real goroutines and compared step by step, then the final state." + _CORR, note=_NOTE + " The object lock is atomic by C19; the Go scheduler and memory model are assumptions."),
+ "C08": dict(technique="Coq proof over a disk-effect model (images at every crash point, restart function): durability and crash atomicity for all programs + point-in-time directory images at every request boundary and crash hook restarted on the real engine",
+             level="Theorems about the disk model of the leveldb disk engine (definition files written as temp + rename, one leveldb directory per table, DeleteTable leaving its files): for all programs the server restarted on the image after an acknowledged request serves the acknowledged state, and the image at every crash point inside metadata persistence, create and clear restarts to the state before or after the request — with the exceptions refuted by witnesses and recorded as findings (BT-12 deleted tables reappear, BT-18 drop-family purge before persistence). Correspondence: real directory images at every request boundary and crash hook are started as second servers and compared with the model's restart; repeated restart cycles." + _CORR, note=_NOTE + " goleveldb recovery, rename atomicity and 'kill -9 = OS-level image' are assumptions; power loss is out of scope."),
  "C09": dict(technique="Coq proof (file-store walk model agrees with the memory-store walk on order-compatible name sets; refuted otherwise) + paired differential correspondence (both stores against their models) with a restart probe at request boundaries",
              level="One handler model serves both stores and differs only in the listing walk (bytewise order vs filepath.Walk order with directory entries); theorems relate the two walks, and the order discrepancy (GCS-2) is refuted by a witness. Correspondence: each program runs on both real stores against the corresponding model; on the file store a fresh emulator instance on the same directory must answer like the running one at request boundaries; a sidecar-less content file must be served." + _CORR, note=_NOTE),
  "C10": dict(technique="Coq invariant proof (generation counter monotone, metageneration laws) + differential correspondence on random histories, both stores",
